@@ -274,7 +274,9 @@ def run_check(pid, tier, seed, t0):
         os.makedirs(os.path.join(VERIF, "replays"), exist_ok=True)
         path = os.path.join(VERIF, "replays", f"{pid}-{seed}-{nviol}.json")
         with open(path, "w") as f:
-            json.dump({"property": pid, "report": r, "record": rec, "decision_inputs": None}, f)
+            # the inputs of a decision check are a function of (property, tier, seed): a replay regenerates and
+            # re-executes them (stateful header chains and multi-round watchdog inputs cannot be cut to one record)
+            json.dump({"property": pid, "report": r, "record": rec, "tier": tier, "seed": seed}, f)
         print(f"VIOLATION property={pid} replay={path}")
         print("  ", json.dumps(r)[:500])
         print("  ", json.dumps(rec)[:700])
